@@ -319,8 +319,9 @@ Theorem registration_match_agrees : forall r d0 margs mkw oracle p,
     match match_procedure (r_dealer r) p oracle with
     | None =>
         meta_call r "wamp.registration.match" d0 margs mkw oracle = (r, MYield [vid 0] [], None) /\
-        call (r_cfg r) (lookup r) (r_now r) (r_dealer r) caller req opts p args kw oracle =
-        CallRefused (r_dealer r) [(s_id caller, RError c_CALL req [] e_no_such_procedure [] [])]
+        exists d',
+          call (r_cfg r) (lookup r) (r_now r) (r_dealer r) caller req opts p args kw oracle =
+          CallRefused d' [(s_id caller, RError c_CALL req [] e_no_such_procedure [] [])]
     | Some rg =>
         meta_call r "wamp.registration.match" d0 margs mkw oracle = (r, MYield [vid (reg_id rg)] [], None) /\
         forall d' callee o,
